@@ -5,6 +5,7 @@ package transfer
 // synctest bubble under the seeded scheduler.
 
 import (
+	"unicode/utf8"
 	"context"
 	"encoding/json"
 	"errors"
@@ -560,7 +561,7 @@ func closeAction(d *verifsim.Delivery, side []*verifsim.NConn) verifsim.Action {
 
 // ---------- spec generation ----------
 
-var nameClasses = []string{"plain", "plain", "plain", "space", "unicode", "dot", "dotdot", "digit", "long", "backslash"}
+var nameClasses = []string{"plain", "plain", "plain", "space", "unicode", "dot", "dotdot", "digit", "long", "backslash", "plain", "plain", "plain", "space", "unicode", "dot", "dotdot", "digit", "long", "backslash", "latin1"}
 
 func genName(r *verifsim.SplitMix, i int) string {
 	switch nameClasses[r.Intn(len(nameClasses))] {
@@ -578,6 +579,10 @@ func genName(r *verifsim.SplitMix, i int) string {
 		return fmt.Sprintf("L%d_%s", i, strings.Repeat("x", 100+r.Intn(120)))
 	case "backslash":
 		return fmt.Sprintf("back\\slash%d", i)
+	case "latin1":
+		// not valid UTF-8: legal on the file systems the tool runs on
+		// (spelled %E9 in the spec so that the replay file stays valid JSON; fsName turns it into the byte)
+		return fmt.Sprintf("caf%%E9-%d.txt", i)
 	}
 	return fmt.Sprintf("f%d.bin", i)
 }
@@ -617,11 +622,23 @@ func genTree(r *verifsim.SplitMix, sp *txSpec, maxFiles int, plainNames bool) {
 		seen[p] = true
 		sp.Files = append(sp.Files, txFile{P: p, N: n})
 	}
+	if len(sp.Files) > 0 && !plainNames && r.Chance(1, 8) {
+		// a symbolic link to a file of the tree
+		t := sp.Files[r.Intn(len(sp.Files))]
+		p := []string{"", "sub/", "linkdir/"}[r.Intn(3)] + fmt.Sprintf("lnk%d", r.Intn(9))
+		if !seen[p] && t.Link == "" {
+			seen[p] = true
+			sp.Files = append(sp.Files, txFile{P: p, N: t.N, Link: t.P})
+		}
+	}
 	if r.Chance(1, 3) {
 		sp.Dirs = append(sp.Dirs, "emptydir")
 	}
 	if r.Chance(1, 6) {
 		sp.Dirs = append(sp.Dirs, "sub/empty/nested")
+	}
+	if !plainNames && r.Chance(1, 15) {
+		sp.Dirs = append(sp.Dirs, "d%E9") // an empty directory whose name is not valid UTF-8
 	}
 	if len(sp.Files) > 0 && r.Chance(1, 3) {
 		// an empty directory whose path is a string prefix of a sibling entry ("logs" next to "logs.txt", "run1" next to "run10")
@@ -1020,7 +1037,16 @@ func (h txHarness) Run(spec any) (res verifsim.RunResult) {
 			if len(sp.Files) == 0 {
 				zf = ";no-files-in-manifest"
 			}
-			v("error", "send="+classifyErr(ep.sendErr)+";recv="+classifyErr(ep.recvErr)+zf, fmt.Sprintf("healthy peers, no fault: sender=%s receiver=%s", errStr(ep.sendErr), errStr(ep.recvErr)))
+			for _, f := range sp.Files {
+				if !utf8.ValidString(fsName(f.P)) && classifyErr(ep.recvErr) == "manifest mismatch" {
+					zf = ";file-name-not-utf8"
+				}
+			}
+			sig := "send=" + classifyErr(ep.sendErr) + ";recv=" + classifyErr(ep.recvErr) + zf
+			if zf == ";file-name-not-utf8" {
+				sig = "recv=manifest mismatch" + zf // (what the sender then reports depends on who notices first)
+			}
+			v("error", sig, fmt.Sprintf("healthy peers, no fault: sender=%s receiver=%s", errStr(ep.sendErr), errStr(ep.recvErr)))
 		}
 	case "C01":
 		if !bothOK {
@@ -1039,7 +1065,13 @@ func (h txHarness) Run(spec any) (res verifsim.RunResult) {
 			break
 		}
 		if d := diffDigests(want, got); d != "" {
-			v("tree-differs", treeDiffSig(want, got), "both sides reported success but the output tree differs: "+d)
+			sig := treeDiffSig(want, got)
+			for _, dn := range sp.Dirs {
+				if !utf8.ValidString(fsName(dn)) && sig == "extra-D+missing-D" {
+					sig = "directory-name-not-utf8"
+				}
+			}
+			v("tree-differs", sig, "both sides reported success but the output tree differs: "+d)
 		}
 	case "C17":
 		if ep.outcome != verifsim.Finished {
